@@ -1534,18 +1534,18 @@ Qed.
 (* 3 stops, 2 resources, 2 vehicles with capacity, start level, start time,
    end time, max duration, max distance and max wait; stop 0 has two windows
    (after the epoch) and a max wait; units {0,1} and {2}; every constraint and
-   every objective term installed *)
+   the activation, travel, vehicles-duration and unplanned terms installed *)
 Definition ex2_opts : options :=
-  mkOptions false false false false false false false false false false false 1 1 1 1 false.
+  mkOptions false false false false false false false false false false false 1 1 1 1 false 0 0 0 0.
 Definition ex2_mat : list (list Z) :=
   map (fun i => map (fun j => if Nat.eqb i j then 0 else 60) (seqn 7)) (seqn 7).
 Definition ex2_vehicle : ivehicle :=
   mkIVehicle (Some [2; 3]) [0; 0] 3000 (Some 20000) (Some 15000) None (Some 1000) (Some 5000)
-             [] 10 true true.
+             [] 10 true true 0 0.
 Definition ex2_inp : input :=
-  mkInput [] [mkIStop [-1; 0] 10 [(3600, 7200); (10800, 14400)] (Some 4000) 100 [];
-           mkIStop [0; -2] 10 [] None 100 [];
-           mkIStop [-1; -1] 10 [] None 100 []]
+  mkInput [] [mkIStop [-1; 0] 10 [(3600, 7200); (10800, 14400)] (Some 4000) 100 [] None 0 0;
+           mkIStop [0; -2] 10 [] None 100 [] None 0 0;
+           mkIStop [-1; -1] 10 [] None 100 [] None 0 0]
           [ex2_vehicle; ex2_vehicle]
           [mkIUnit [0; 1]%nat []; mkIUnit [2%nat] []]
           ex2_mat ex2_mat 2 ex2_opts [].
@@ -1710,10 +1710,10 @@ Qed.
 Definition dgx_mat : list (list Z) :=
   map (fun i => map (fun j => if Nat.eqb i j then 0 else 60) (seqn 6)) (seqn 6).
 Definition dgx_stops : list istop :=
-  [mkIStop [] 10 [] None 100 []; mkIStop [] 20 [] None 100 [];
-   mkIStop [] 5 [] None 100 []; mkIStop [] 30 [] None 100 []].
+  [mkIStop [] 10 [] None 100 [] None 0 0; mkIStop [] 20 [] None 100 [] None 0 0;
+   mkIStop [] 5 [] None 100 [] None 0 0; mkIStop [] 30 [] None 100 [] None 0 0].
 Definition dgx_inp : input :=
-  mkInput [] dgx_stops [mkIVehicle None [] 0 None None None None None [] 0 true true]
+  mkInput [] dgx_stops [mkIVehicle None [] 0 None None None None None [] 0 true true 0 0]
           [mkIUnit [0; 1; 2; 3]%nat []] dgx_mat dgx_mat 0 ex_opts [([0; 1; 3]%nat, 300)].
 Definition dgx_s0 : state :=
   Eval vm_compute in match new_solution dgx_inp with Some s => s | None => ex_dummy end.
@@ -1721,9 +1721,9 @@ Definition dgx_mv : move := mkMove 0 0 [(0, 1); (1, 1); (2, 1); (3, 1)]%nat.
 Definition dgx_s1 : state := Eval vm_compute in fst (exec_move dgx_inp dgx_s0 dgx_mv).
 (* the same input with the duration groups disabled *)
 Definition dgx_off_inp : input :=
-  mkInput [] dgx_stops [mkIVehicle None [] 0 None None None None None [] 0 true true]
+  mkInput [] dgx_stops [mkIVehicle None [] 0 None None None None None [] 0 true true 0 0]
           [mkIUnit [0; 1; 2; 3]%nat []] dgx_mat dgx_mat 0
-          (mkOptions false false false false false false false false false false false 0 1 0 1 true)
+          (mkOptions false false false false false false false false false false false 0 1 0 1 true 0 0 0 0)
           [([0; 1; 3]%nat, 300)].
 
 Example dgx_wf : wf_input dgx_inp.
@@ -1776,6 +1776,97 @@ Proof.
 Qed.
 
 (* ================================================================== *)
+(* C05: the early / late arrival, min stops and stop balance terms     *)
+(* ================================================================== *)
+
+(* Stops 0 and 1, own duration 10 each.  Stop 0: target arrival 500, early
+   penalty 2, late penalty 3; stop 1: target arrival 100, the same penalties.
+   Two vehicles (first / last stops 2 / 3 and 4 / 5), start time 0, activation
+   penalty 1000, min_stops 3 with penalty 10; 60 s between any two different
+   stops.  Factors: activation 1, travel 1, vehicles duration 1, unplanned 1,
+   early 2, late 3, min stops 5, stop balance 7.  Two moves plan stop 0 and
+   then stop 1 behind it on vehicle 0; vehicle 1 stays empty.
+     arrivals on vehicle 0: 0, 60, 130, 200
+     stop 0 is 440 s early: 2 * 440 = 880;  stop 1 is 30 s late: 3 * 30 = 90
+     vehicle 0 has 2 stops of 3: 10 * 1 * 1; the empty vehicle 1 is free
+     the largest vehicle has 2 stops *)
+Definition mt_opts : options :=
+  mkOptions false false false false false false false false false false false 1 1 1 1 false 2 3 5 7.
+Definition mt_mat : list (list Z) :=
+  map (fun i => map (fun j => if Nat.eqb i j then 0 else 60) (seqn 6)) (seqn 6).
+Definition mt_vehicle : ivehicle :=
+  mkIVehicle None [] 0 None None None None None [] 1000 true true 3 10.
+Definition mt_inp : input :=
+  mkInput [] [mkIStop [] 10 [] None 100 [] (Some 500) 2 3; mkIStop [] 10 [] None 100 [] (Some 100) 2 3]
+          [mt_vehicle; mt_vehicle]
+          [mkIUnit [0%nat] []; mkIUnit [1%nat] []] mt_mat mt_mat 0 mt_opts [].
+Definition mt_s0 : state :=
+  Eval vm_compute in match new_solution mt_inp with Some s => s | None => ex_dummy end.
+Definition mt_mv1 : move := mkMove 0 0 [(0, 1)]%nat.
+Definition mt_s1 : state := Eval vm_compute in fst (exec_move mt_inp mt_s0 mt_mv1).
+Definition mt_mv2 : move := mkMove 1 0 [(1, 2)]%nat.
+Definition mt_s2 : state := Eval vm_compute in fst (exec_move mt_inp mt_s1 mt_mv2).
+
+Example mt_wf : wf_input mt_inp.
+Proof.
+  split; [|split; [|split]].
+  - vm_compute. repeat (constructor; [simpl; lia|]). constructor.
+  - intros x. vm_compute. lia.
+  - intros u Hu. vm_compute in Hu. destruct Hu as [<-|[<-|[]]]; discriminate.
+  - vm_compute. constructor.
+Qed.
+
+Example mt_new : new_solution mt_inp = Some mt_s0.
+Proof. vm_compute. reflexivity. Qed.
+
+Example mt_mv1_ok : move_ok mt_inp mt_s0 mt_mv1.
+Proof.
+  unfold move_ok. vm_compute.
+  split; [lia|]. split; [lia|]. split; [apply Permutation_refl|]. split; [discriminate|].
+  split; repeat constructor.
+Qed.
+
+Example mt_mv2_ok : move_ok mt_inp mt_s1 mt_mv2.
+Proof.
+  unfold move_ok. vm_compute.
+  split; [lia|]. split; [lia|]. split; [apply Permutation_refl|]. split; [discriminate|].
+  split; repeat constructor.
+Qed.
+
+Example mt_mv1_done : exec_move mt_inp mt_s0 mt_mv1 = (mt_s1, Done).
+Proof. vm_compute. reflexivity. Qed.
+
+Example mt_mv2_done : exec_move mt_inp mt_s1 mt_mv2 = (mt_s2, Done).
+Proof. vm_compute. reflexivity. Qed.
+
+Example mt_reachable : reachable mt_inp mt_s2.
+Proof.
+  exists mt_s0, [OpPlan mt_mv1; OpPlan mt_mv2]. split; [exact mt_new|]. split.
+  - cbn [fresh op_ok]. split; [exact mt_mv1_ok|]. cbn [step]. rewrite mt_mv1_done. cbn [fst].
+    split; [exact mt_mv2_ok|exact I].
+  - cbn [run step]. rewrite mt_mv1_done. cbn [fst run step]. rewrite mt_mv2_done. cbn [fst].
+    right. right. left. reflexivity.
+Qed.
+
+Example C05_more_terms_example_proof :
+  wf_input mt_inp /\ reachable mt_inp mt_s2 /\
+  map route_stops (st_routes mt_s2) = [[2; 0; 1; 3]; [4; 5]]%nat /\
+  map c_arrival (get_route mt_s2 0) = [0; 60; 130; 200] /\
+  stop_target mt_inp 0 = Some 500 /\ stop_target mt_inp 1 = Some 100 /\
+  obj_early mt_inp mt_s2 = 2 * (500 - 60) /\
+  obj_late mt_inp mt_s2 = 3 * (130 - 100) /\
+  obj_min_stops mt_inp mt_s2 = 10 * (3 - 2) * (3 - 2) /\
+  obj_stop_balance mt_inp mt_s2 = 2 /\
+  (* activation, travel, vehicles duration, unplanned, early, late, min stops, stop balance *)
+  score_terms mt_inp mt_s2 = [1000; 240; 260; 0; 1760; 270; 50; 14] /\
+  st_scores mt_s2 = [1000; 240; 260; 0; 1760; 270; 50; 14] /\
+  st_total mt_s2 = 3594.
+Proof.
+  split; [exact mt_wf|]. split; [exact mt_reachable|].
+  repeat split; vm_compute; reflexivity.
+Qed.
+
+(* ================================================================== *)
 (* Assumptions                                                         *)
 (* ================================================================== *)
 
@@ -1787,3 +1878,4 @@ Print Assumptions from_scratch_nth.
 Print Assumptions stop_violation_none.
 Print Assumptions ex2_capacity_prefix.
 Print Assumptions third_branch_fires.
+Print Assumptions C05_more_terms_example_proof.
